@@ -61,6 +61,10 @@ def census(ctx):
     }
 
 
+# scratch copies evaluated side by side, each worker with its own cargo target directory
+JOBS = os.environ.get('VERIF_JOBS', '4')
+
+
 def validate_mutants(ctx):
     cat_path = os.path.join(facts.VERIF, 'mutants', 'catalogue.json')
     cat = json.load(open(cat_path))['mutants']
@@ -75,7 +79,7 @@ def validate_mutants(ctx):
     else:
         out = os.path.join(facts.CACHE, 'mutant_results_%s_%d.json' % (ctx.prop, os.getpid()))
         r = subprocess.run([sys.executable, os.path.join(facts.VERIF, 'tools', 'run_mutants.py'),
-                            '--prop', ctx.prop, '--json', out], capture_output=True, text=True, env=env)
+                            '--prop', ctx.prop, '--json', out, '--jobs', JOBS], capture_output=True, text=True, env=env)
         results = json.load(open(out)) if os.path.exists(out) else []
         if os.path.exists(out):
             os.unlink(out)
@@ -93,7 +97,7 @@ def validate_mutants(ctx):
     # silent side: behaviour-preserving variants that concern this property
     out2 = os.path.join(facts.CACHE, 'equiv_results_%s_%d.json' % (ctx.prop, os.getpid()))
     r2 = subprocess.run([sys.executable, os.path.join(facts.VERIF, 'tools', 'run_equivalents.py'),
-                         '--prop', ctx.prop, '--json', out2], capture_output=True, text=True, env=env)
+                         '--prop', ctx.prop, '--json', out2, '--jobs', JOBS], capture_output=True, text=True, env=env)
     eq = json.load(open(out2)) if os.path.exists(out2) else []
     if os.path.exists(out2):
         os.unlink(out2)
@@ -107,7 +111,7 @@ def validate_mutants(ctx):
     # firing side 2: the independently seeded changes that break this property
     out3 = os.path.join(facts.CACHE, 'seed_results_%s_%d.json' % (ctx.prop, os.getpid()))
     r3 = subprocess.run([sys.executable, os.path.join(facts.VERIF, 'tools', 'run_seeds.py'),
-                         '--prop', ctx.prop, '--json', out3], capture_output=True, text=True, env=env)
+                         '--prop', ctx.prop, '--json', out3, '--jobs', JOBS], capture_output=True, text=True, env=env)
     sd = json.load(open(out3)) if os.path.exists(out3) else []
     if os.path.exists(out3):
         os.unlink(out3)
